@@ -13,6 +13,7 @@ From BFS Require Import Spec.CopySpecs Spec.ViewOsfs.
 From BFS Require Import Proofs.LawsOsfsBase Proofs.LawsOsfsA Proofs.LawsOsfsB.
 From BFS Require Import Proofs.BackupCopy Proofs.BackupTry Proofs.BackupRollback Proofs.BackupC01 Proofs.BackupForce.
 From BFS Require Import Proofs.LawsOsfs.
+From BFS Require Import Spec.ViewHidden Spec.ViewRoot Proofs.LawsHidden Proofs.LawsNew.
 
 (** the invariant pins untracked paths to the baseline; a restored view equals
     the baseline: together, untracked paths are untouched *)
@@ -56,5 +57,39 @@ Proof.
   exact (untracked_unchanged (Vp pa) (Vp pb) B0 w w' HI Heq).
 Qed.
 
+(** closed, for the documented layering (HiddenFS hiding the backup location
+    inside a PrefixFS) *)
+Theorem rollback_untracked_documented :
+  forall pa h, prefix_ok pa -> hidden_ok h ->
+  forall B0, links_ok clean clean (acc_h pa h) (acc_p (pk_h pa h)) B0 -> all_small B0 -> swf B0 ->
+  loc_ok (hid_h h) (anc_h h) B0 ->
+  forall w, Inv (VpH pa h) (Vp (pk_h pa h)) B0 w ->
+  exists w', b_rollback (cfg_base (dcfg pa h)) (cfg_backup (dcfg pa h)) w = (MOk tt, w') /\
+    forall p, p <> s_root -> w_infos w !! p = None -> sonode_eqv (VpH pa h w' !! p) (VpH pa h w !! p).
+Proof.
+  intros pa h Ha Hh B0 Hl Hs Hwf Hloc w HI.
+  destruct (rollback_documented pa h Ha Hh B0 Hl Hs Hwf Hloc w HI) as (w' & Hrun & _ & Heq & _ & _).
+  exists w'. split; [exact Hrun |].
+  exact (untracked_unchanged (VpH pa h) (Vp (pk_h pa h)) B0 w w' HI Heq).
+Qed.
+
+(** closed, for the constructors New / NewWithFS (HiddenFS directly over the
+    OS filesystem) *)
+Theorem rollback_untracked_new :
+  forall h, hidden_ok h ->
+  forall B0, links_ok tn_0 clean (acc_0 h) (acc_p h) B0 -> all_small B0 -> swf B0 ->
+  loc_ok (hid_h h) (anc_h h) B0 ->
+  forall w, Inv (V0H h) (Vp h) B0 w ->
+  exists w', b_rollback (cfg_base (ncfg h)) (cfg_backup (ncfg h)) w = (MOk tt, w') /\
+    forall p, p <> s_root -> w_infos w !! p = None -> sonode_eqv (V0H h w' !! p) (V0H h w !! p).
+Proof.
+  intros h Hh B0 Hl Hs Hwf Hloc w HI.
+  destruct (rollback_new h Hh B0 Hl Hs Hwf Hloc w HI) as (w' & Hrun & _ & Heq & _ & _).
+  exists w'. split; [exact Hrun |].
+  exact (untracked_unchanged (V0H h) (Vp h) B0 w w' HI Heq).
+Qed.
+
 Print Assumptions rollback_untracked_spec.
+Print Assumptions rollback_untracked_documented.
+Print Assumptions rollback_untracked_new.
 Print Assumptions rollback_untracked_concrete.
